@@ -81,6 +81,98 @@ Example ex6_result :
   d_height (n_disk (run ex_exec (ex_g 5) (firstn 12 ex6_hist))) = 4.
 Proof. vm_compute. repeat split; reflexivity. Qed.
 
+(* ======== any signature payload provider, transient store read faults (Model/Syncer.v, second part) ========
+   Quantification in addition to the above: every signature payload provider [prov] (ManagerOptions of the
+   proposer and of the node; the chain's headers are signed over [payload prov h]), and histories whose events
+   may each carry a read fault [Some n] = the (n+1)-th store.Height() call made while that event is handled
+   returns an error (n = 0: the read of the SyncLoop case — the event is skipped, not cached, not marked as
+   seen; n > 0: a read inside trySyncNextBlock — SyncLoop returns, the node goes on at the next start), and
+   clean restarts at any point (which is where the provider matters: what the caches held at the stop is
+   validated by the new process with ITS provider — sync.go:155-156 — not with whatever verifier was attached
+   to the object when it was cached and which the cache files do not keep). *)
+
+(* the model of the first part is the instance: default provider, no fault *)
+Theorem C02_default_instance_full : forall exec g h,
+  frun exec 0 g (map lift h) = run exec g h.
+Proof. exact frun_lift. Qed.
+Print Assumptions C02_default_instance_full.
+
+(* safety: after every such history the node has applied exactly a prefix of the chain (blocks, state,
+   execution calls as in C02_safety_full); SyncLoop is running or has returned, and it is running whenever no
+   height read inside trySyncNextBlock was made to fail since the last start — in particular a clean restart
+   with headers or data pending in the caches never makes it stop, whatever the provider *)
+Theorem C02_safety_faults_full : forall exec prov g k C h,
+  ChainValidP exec prov g k C -> Forall (fitem_in C) h -> forallb fclean h = true ->
+  (n_status (frun exec prov g h) = Running \/ n_status (frun exec prov g h) = Halted) /\
+  (live_after true h = true -> n_status (frun exec prov g h) = Running) /\
+  exists j, synced_to exec g C (frun exec prov g h) j /\
+            n_log (frun exec prov g h) = calls_after exec (genesis_state g) C j.
+Proof. exact safety_f. Qed.
+Print Assumptions C02_safety_faults_full.
+
+Theorem C02_monotone_faults_full : forall exec prov g k C h1 h2,
+  ChainValidP exec prov g k C -> Forall (fitem_in C) (h1 ++ h2) ->
+  exists j1 j2, (j1 <= j2)%nat /\ synced_to exec g C (frun exec prov g h1) j1 /\
+                synced_to exec g C (frun exec prov g (h1 ++ h2)) j2.
+Proof. exact monotone_f. Qed.
+Print Assumptions C02_monotone_faults_full.
+
+(* completeness under the guard distinct_commitmentsb (the open finding, nothing else): what counts as
+   received is an event whose own height read did not fail and that arrived while SyncLoop was running
+   ([delivered_live]); if SyncLoop is running at the end, every block up to m whose header and (if not
+   empty) data were so received is applied *)
+Theorem C02_complete_faults_partial : forall exec prov g k C h m,
+  ChainValidP exec prov g k C -> Forall (fitem_in C) h -> forallb fclean h = true ->
+  distinct_commitmentsb C = true -> (m <= length C)%nat ->
+  n_status (frun exec prov g h) = Running ->
+  (forall i b, (i < m)%nat -> nth_error C i = Some b -> delivered_live exec prov g [] h (EvHeader (fst b))) ->
+  (forall i b, (i < m)%nat -> nth_error C i = Some b -> d_txs (snd b) <> [] ->
+     delivered_live exec prov g [] h (EvData (snd b))) ->
+  g_initial g + N.of_nat m - 1 <= d_height (n_disk (frun exec prov g h)).
+Proof. exact complete_f. Qed.
+Print Assumptions C02_complete_faults_partial.
+
+(* every event lost to a failed height read is delivered again: with faults only at the reads of the SyncLoop
+   cases (any number, any events), a history that contains for every block up to m a header event and (if not
+   empty) a data event whose own read did not fail brings the node to height >= initial + m - 1 — the lost
+   deliveries of the same events, before or after, change nothing (they are not marked as seen) *)
+Theorem C02_complete_redelivery_partial : forall exec prov g k C h m,
+  ChainValidP exec prov g k C -> Forall (fitem_in C) h -> forallb fclean h = true ->
+  distinct_commitmentsb C = true -> (m <= length C)%nat ->
+  forallb (fun i => negb (halting i)) h = true ->
+  (forall i b, (i < m)%nat -> nth_error C i = Some b ->
+     exists da flt, In (FEv (EvHeader (fst b) da) flt) h /\ flt <> Some O) ->
+  (forall i b, (i < m)%nat -> nth_error C i = Some b -> d_txs (snd b) <> [] ->
+     exists da flt, In (FEv (EvData (snd b) da) flt) h /\ flt <> Some O) ->
+  g_initial g + N.of_nat m - 1 <= d_height (n_disk (frun exec prov g h)).
+Proof. exact complete_redelivery. Qed.
+Print Assumptions C02_complete_redelivery_partial.
+
+(* ---- non-vacuity: the 6-block chain signed under provider 2.  Headers 5..3 and data 5, 4 are pending when
+   the node is stopped cleanly; the data of block 4 is lost twice to a failed height read and arrives a third
+   time; a height read inside trySyncNextBlock fails while header 1 is handled (SyncLoop returns, what arrives
+   meanwhile is lost), the node is started again and receives the rest ---------------------------------- *)
+Definition ex7 := ex_chain_p 2 5 [([], 100%Z); ([1; 2], 100%Z); ([], 103%Z); ([], 103%Z); ([3], 104%Z); ([4], 110%Z)].
+Definition ex7_hist :=
+  [ fevh ex7 5 9 None; fevd ex7 5 9 None; fevh ex7 4 2 None; fevd ex7 4 2 (Some O); fevd ex7 4 3 (Some O); fevh ex7 3 1 None;
+    FRestart; fevd ex7 4 3 None; fevh ex7 2 1 None; fevd ex7 1 7 None; fevh ex7 1 7 (Some 1%nat); fevh ex7 0 0 None;
+    FRestart; fevh ex7 0 0 None ].
+Example ex7_valid : ChainValidP ex_exec 2 (ex_g 5) 1 ex7 /\ distinct_commitmentsb ex7 = true.
+Proof. split; [chain_valid|vm_compute; reflexivity]. Qed.
+Example ex7_not_default : ~ ChainValidP ex_exec 0 (ex_g 5) 1 ex7.
+Proof. intros (_ & _ & H). vm_compute in H. discriminate H. Qed.
+Example ex7_items : Forall (fitem_in ex7) ex7_hist /\ forallb fclean ex7_hist = true /\ live_after true ex7_hist = true.
+Proof. split; [repeat constructor; cbn; try exact I; eexists; solve_in|split; reflexivity]. Qed.
+Example ex7_result :
+  (* the lost data of block 4 (index 4 = height 9) is not marked as seen: heights 9 and 10 are applied once it arrives again *)
+  map (fun p => d_height (n_disk (frun ex_exec 2 (ex_g 5) (firstn p ex7_hist)))) [6; 7; 10; 11; 12; 13; 14]%nat = [4; 4; 4; 4; 4; 4; 10] /\
+  (* SyncLoop returned at the failed read inside trySyncNextBlock, runs again after the start *)
+  map (fun p => n_status (frun ex_exec 2 (ex_g 5) (firstn p ex7_hist))) [10; 11; 12; 13]%nat = [Running; Halted; Halted; Running] /\
+  map x_height (n_log (frun ex_exec 2 (ex_g 5) ex7_hist)) = [5; 6; 7; 8; 9; 10] /\
+  (* the provider matters: the same history on a node configured with the default provider stops at the first block *)
+  n_status (frun ex_exec 0 (ex_g 5) ex7_hist) = Halted /\ d_height (n_disk (frun ex_exec 0 (ex_g 5) ex7_hist)) = 4.
+Proof. vm_compute. repeat split; reflexivity. Qed.
+
 (* ======== P2P ingress: block/store.go HeaderStoreRetrieveLoop / DataStoreRetrieveLoop (Model/P2PIngress.v) ========
    Code state: after the repair 2ae5bf0 (the cursor only moves forward, after the range was handed to sync).
    Quantification: every initial cursor, EVERY sequence of signals — any store heights (bursts of any size,
